@@ -82,7 +82,7 @@ def gen_case(run_seed, tier):
         "log_steps": sz.choice([1, 1, 1, 3, 4]),
         # a target that is not a graph state: a stabilizer state compiled from a short seeded circuit (signed generators
         # in arbitrary order); only for the plain evolutionary solver
-        "compiled_target": kind == "evo" and sz.random() < 0.25,
+        "compiled_target": kind == "evo" and sz.random() < 0.4,
     }
     return case
 
@@ -137,13 +137,18 @@ def _mk(case):
 
         rr = random.Random(case["seed"] * 31 + case["n"])
         c0 = CircuitDAG(n_emitter=0, n_photon=case["n"], n_classical=0)
+        keep_q0_classical = rr.random() < 0.5  # qubit 0 stays in a Z eigenstate: its generator is not the first X-type row
         for _ in range(3 * case["n"]):
             q = rr.randrange(case["n"])
             k = rr.choice(["H", "P", "X", "Z", "CNOT", "H"])
+            if keep_q0_classical and q == 0 and k in ("H", "CNOT"):
+                k = "X"
             if k == "CNOT":
                 if case["n"] < 2:
                     continue
                 t = rr.choice([i for i in range(case["n"]) if i != q])
+                if keep_q0_classical and t == 0:
+                    continue
                 c0.add(gq.make_op(["g2", "CNOT", "p", q, "p", t]))
             else:
                 c0.add(gq.make_op(["g1", k, "p", q]))
